@@ -204,10 +204,8 @@ pub fn check_build_script_environments(st: &mut Stats) {
         ("NUM_JOBS=64", vec![("NUM_JOBS", "64")]),
     ];
     let scratch = Scratch::new("bsenv");
-    let jobs: Vec<(usize, usize)> = (0..scripts.len()).flat_map(|i| (0..deviations.len()).map(move |j| (i, j))).collect();
-    let results: Vec<(usize, usize, Result<Vec<String>, String>)> = jobs
-        .par_iter()
-        .map(|&(i, j)| {
+    // phase 1: the default environment (its file set is the yardstick); phase 2: the deviations
+    let run_job = |i: usize, j: usize| -> (usize, usize, Result<Vec<String>, String>) {
             let (krate, exe) = &scripts[i];
             let (_, devs) = &deviations[j];
             let out = scratch.dir.join(format!("{}-{}", krate, j));
@@ -244,8 +242,21 @@ pub fn check_build_script_environments(st: &mut Stats) {
                 Ok(_) => {
                     let base = if krate == "precis-core" { &core_out } else { &prof_out };
                     let mut diffs = Vec::new();
-                    let mut names: Vec<String> = std::fs::read_dir(base).map(|d| d.flatten().map(|e| e.file_name().to_string_lossy().to_string()).collect()).unwrap_or_default();
+                    // the files THIS script writes (cargo's directory may hold stale files of earlier
+                    // builds of another version of the script; they are nobody's output)
+                    let mut names: Vec<String> = std::fs::read_dir(&out).map(|d| d.flatten().map(|e| e.file_name().to_string_lossy().to_string()).collect()).unwrap_or_default();
                     names.sort();
+                    if j != 0 {
+                        // deviations are compared with the default re-run's file set as well
+                        let d0 = scratch.dir.join(format!("{}-0", krate));
+                        let mut n0: Vec<String> = std::fs::read_dir(&d0).map(|d| d.flatten().map(|e| e.file_name().to_string_lossy().to_string()).collect()).unwrap_or_default();
+                        n0.sort();
+                        for n in n0 {
+                            if !names.contains(&n) {
+                                names.push(n);
+                            }
+                        }
+                    }
                     for n in &names {
                         let a = std::fs::read(base.join(n)).unwrap_or_default();
                         let b = std::fs::read(out.join(n)).ok();
@@ -267,8 +278,10 @@ pub fn check_build_script_environments(st: &mut Stats) {
                 }
             };
             (i, j, r)
-        })
-        .collect();
+    };
+    let mut results: Vec<(usize, usize, Result<Vec<String>, String>)> = (0..scripts.len()).into_par_iter().map(|i| run_job(i, 0)).collect();
+    let jobs: Vec<(usize, usize)> = (0..scripts.len()).flat_map(|i| (1..deviations.len()).map(move |j| (i, j))).collect();
+    results.extend(jobs.par_iter().map(|&(i, j)| run_job(i, j)).collect::<Vec<_>>());
     // the default environment must reproduce the real build, otherwise this scenario shows nothing
     for (i, (krate, _)) in scripts.iter().enumerate() {
         let default_ok = results.iter().any(|(a, b, r)| *a == i && *b == 0 && matches!(r, Ok(d) if d.is_empty()));
